@@ -57,3 +57,18 @@ def f4():
 
 for n, f in [("F1 C20 checks-after-writes", f1), ("F2 C19 NashMTL reuse", f2), ("F3 C11 ConFIG validation", f3), ("F4 C11 IMTLG homogeneity", f4)]:
     print(n, "OK" if f() else "DEFECT")
+
+
+def f5():
+    # C02/C06: parameters given as one-shot iterables (the signature says Iterable[Tensor]) are silently ignored
+    import torch.nn as nn
+    torch.manual_seed(0)
+    trunk = nn.Linear(3, 2); h1 = nn.Linear(2, 1); h2 = nn.Linear(2, 1)
+    x = torch.randn(4, 3)
+    f = trunk(x)
+    l1 = h1(f).mean(); l2 = h2(f).mean()
+    mtl_backward([l1, l2], f, Mean(), tasks_params=[h1.parameters(), h2.parameters()], shared_params=trunk.parameters())
+    return all(p.grad is not None for p in list(trunk.parameters()) + list(h1.parameters()) + list(h2.parameters()))
+
+
+print("F5 C02 one-shot iterables in mtl_backward", "OK" if f5() else "DEFECT")
